@@ -1,0 +1,7 @@
+//go:build !verif
+
+package util
+
+import "sync"
+
+func simPoint(string, *sync.Once) {}
